@@ -44,7 +44,8 @@ ASSUMPTIONS = ['the Manifest chain is intact and duplicates agree in this worklo
 CLASSES = ['content', 'size', 'delete', 'retype', 'stray', 'stray', 'stray-lookalike',
            'stray-special', 'stray-manifest-name', 'm-digest', 'm-size', 'm-drop',
            'm-ghost', 'm-ghost', 'm-disjoint-wrong', 'm-compatible-dup',
-           'm-manifest-dup-wrong', 'm-manifest-dup-wrong', 'm-entry-for-dir']
+           'm-manifest-dup-wrong', 'm-manifest-dup-wrong', 'm-entry-for-dir',
+           'hidden-listed', 'hidden-listed']
 N = {'quick': 2500, 'thorough': 100000}
 PER_UNIT = 25
 POLICIES = ['false', 'true', 'none', 'mixed']
@@ -380,10 +381,17 @@ def exec_loop(ctx, names, policy, walk_seed):
         ctx.case(sig=('loop', policy), case=case, klass='loop')
         ctx.count('loop_runs')
         rec = Recorder(policy)
+        old_cwd = os.getcwd()
         try:
             with walkperm.WalkPermuter(case['walk_seed'], budget=2000):
-                m = ManifestRecursiveLoader(os.path.join(root, 'Manifest'),
-                                            verify_openpgp=False)
+                if walk_seed % 2:
+                    # from inside the tree, by the relative name ./Manifest
+                    os.chdir(root)
+                    m = ManifestRecursiveLoader('./Manifest', verify_openpgp=False)
+                    ctx.count('loop_runs_relative_root')
+                else:
+                    m = ManifestRecursiveLoader(os.path.join(root, 'Manifest'),
+                                                verify_openpgp=False)
                 ret = m.assert_directory_verifies('', fail_handler=rec)
         except ManifestSymlinkLoop:
             return
@@ -395,6 +403,8 @@ def exec_loop(ctx, names, policy, walk_seed):
             ctx.violation('loop-raises:' + adapt.exc_key(exc), 'symlink loop under a '
                           'lenient handler raised %r' % (exc,), case)
             return
+        finally:
+            os.chdir(old_cwd)
         ctx.violation('loop-not-raised', 'a symlink loop was not raised in keep-going '
                       'mode (handler policy %s, result %r, %d reports)'
                       % (policy, ret, len(rec.calls)), case)
